@@ -324,6 +324,22 @@ pub fn check(tier: &str, seed: u64, only: Option<&str>) -> i32 {
     let planned = plan(&reg, tier, seed, only);
     let nworkers = crate::driver::host_workers();
     let results = run_jobs(&planned.jobs, nworkers);
+    // fresh-OS-process sweep: the same reference jobs, each as the FIRST run of a new
+    // process, must give the fingerprint they gave as the k-th run of a batch child
+    let mut fresh_mismatch: Vec<(usize, (String, String, String))> = Vec::new();
+    let mut fresh_runs = 0usize;
+    {
+        let stride = if tier == "thorough" { 3 } else { 23 };
+        let picked: Vec<usize> = (0..planned.jobs.len()).filter(|i| i % stride == 0 && reg.scenarios[planned.meta[*i].0].kind == Kind::Claim).collect();
+        let fj: Vec<Job> = picked.iter().enumerate().map(|(k, &i)| Job { id: k, kind: planned.jobs[i].kind.clone() }).collect();
+        let fr = crate::driver::run_jobs_fresh_each(&fj, nworkers);
+        fresh_runs = fr.len();
+        for (k, r) in fr.iter().enumerate() {
+            if let Some(d) = differs(&outcome(&results[picked[k]]), &outcome(r)) {
+                fresh_mismatch.push((picked[k], d));
+            }
+        }
+    }
     let wall_batch = crate::seams::real_now_s() - t0;
 
     // group by (scenario, p)
@@ -411,6 +427,12 @@ pub fn check(tier: &str, seed: u64, only: Option<&str>) -> i32 {
         }
     }
 
+    for (i, d) in &fresh_mismatch {
+        // same job, same environment, different position in its OS process: history dependence
+        let g = &groups[&(planned.meta[*i].0, planned.meta[*i].1.seed, planned.meta[*i].1.size as u8)];
+        let ref_idx = *g.iter().find(|&&j| planned.meta[j].2).unwrap();
+        candidates.push((ref_idx, *i, (format!("{} (k-th run in a process vs first run of a fresh process)", d.0), d.1.clone(), d.2.clone())));
+    }
     // one confirmation + minimisation per (scenario, field) class
     let known = known_findings();
     let mut classes: BTreeMap<(String, String), Vec<(usize, usize)>> = BTreeMap::new();
@@ -472,10 +494,10 @@ pub fn check(tier: &str, seed: u64, only: Option<&str>) -> i32 {
             eprintln!("HARNESS ERROR: {u}");
         }
         // a difference that does not replay is never reported as a VIOLATION
-        write_c20_evidence(tier, seed, evaluations, &distinct, &pool_sizes, &tot, &matrix, &controls_fired, &controls_seen, &kth_positions, sim_time_ns, &samples, &planned, &reg, reported, &known_hits, t0, wall_batch, &nocompare_crashes, classes.len());
+        write_c20_evidence(tier, seed, evaluations, &distinct, &pool_sizes, &tot, &matrix, &controls_fired, &controls_seen, &kth_positions, sim_time_ns, &samples, &planned, &reg, reported, &known_hits, t0, wall_batch, &nocompare_crashes, classes.len(), fresh_runs);
         return 2;
     }
-    write_c20_evidence(tier, seed, evaluations, &distinct, &pool_sizes, &tot, &matrix, &controls_fired, &controls_seen, &kth_positions, sim_time_ns, &samples, &planned, &reg, reported, &known_hits, t0, wall_batch, &nocompare_crashes, classes.len());
+    write_c20_evidence(tier, seed, evaluations, &distinct, &pool_sizes, &tot, &matrix, &controls_fired, &controls_seen, &kth_positions, sim_time_ns, &samples, &planned, &reg, reported, &known_hits, t0, wall_batch, &nocompare_crashes, classes.len(), fresh_runs);
     println!(
         "C20 {tier}: {} simulated runs over {} scenarios, {} distinct non-trivial, {} divergence classes ({} reported, {} known), {:.1}s",
         evaluations,
@@ -515,6 +537,7 @@ fn write_c20_evidence(
     wall_batch: f64,
     nocompare_crashes: &[String],
     classes: usize,
+    fresh_runs: usize,
 ) {
     let wall = crate::seams::real_now_s() - t0;
     let mut samples = samples.to_vec();
@@ -542,6 +565,7 @@ fn write_c20_evidence(
             "in_tree_controls": {"seen": controls_seen, "diverged_runs": controls_fired, "note": "documented exclusions of C20 (k-means||, unseeded FastICA, permutation p-values): expected to diverge, informational; harness-owned controls (parallel float sum, probe hash map, thread_rng, Instant) are enforced by the self-test before every run"},
             "excluded_must_not_crash_failures": nocompare_crashes,
             "kth_run_in_process_positions_seen": kth.len(),
+            "fresh_os_process_runs_compared_with_their_batch_run": fresh_runs,
             "simulated_time_covered_s": (sim_time_ns / 1_000_000_000) as u64,
             "divergence_classes_found": classes,
             "known_findings_matched": known_hits,
